@@ -11,7 +11,7 @@ from harness.translate import translator_obligations
 from harness.search_deriv import derivative_search
 
 MODULE = 'Ndt.Props.C01Multi'
-THEOREMS = ['Ndt.difference_functions_generated', 'Ndt.dCentral_expansion', 'Ndt.dCentralEven_expansion', 'Ndt.dForward_expansion', 'Ndt.dBackward_expansion',
+THEOREMS = ['Ndt.difference_functions_generated', 'Ndt.argMinRow_skips_nan', 'Ndt.bestEstimate_err_not_nan', 'Ndt.dCentral_expansion', 'Ndt.dCentralEven_expansion', 'Ndt.dForward_expansion', 'Ndt.dBackward_expansion',
             'Ndt.fdRow_apply_k', 'Ndt.fdApply_on_expansion', 'Ndt.diffName_real', 'Ndt.real_step_candidates_exact',
             'Ndt.richCall_const', 'Ndt.wynnTable_const', 'Ndt.bestEstimate_const', 'Ndt.tailStage_const',
             'Ndt.derivative_exact_on_polynomials', 'Ndt.zero_order_is_f',
